@@ -365,12 +365,12 @@ pub fn joins_check(c: &JoinCase) -> CaseResult {
             if !c.nested && mg == multiset(&ref_join(&rv.lrows, &rv.rrows, lw, rw, &rv.keys, rv.jt, false, true)) {
                 // exactly the join in which Float64 x equals the Int64 with x's bit pattern (0.0 = 0)
                 "float-key-as-int-bits".to_string()
-            } else if !c.nested && c.rsel >= 2 && (rv.jt == 2 || rv.jt == 3) {
-                // right / full outer hash join whose build side carries a selection vector
-                "build-selection-outer".to_string()
             } else if mg == multiset(&alt) {
-                // exactly the join under the convention NULL = NULL
+                // exactly the join under the convention NULL = NULL (an exact prediction: tried before the broad label below)
                 format!("null-keys-match/{}", if c.nested { "nlj" } else if rv.keys.len() >= 2 { "hash-composite" } else { "hash-outer" })
+            } else if !c.nested && c.rsel >= 2 && (rv.jt == 2 || rv.jt == 3) {
+                // right / full outer hash join whose build side carries a selection vector (repaired defect: a violation now)
+                "build-selection-outer".to_string()
             } else if got.len() != want.len() {
                 "count".to_string()
             } else {
